@@ -56,13 +56,15 @@ func Catalogue(tier string) []core.System {
 	l = append(l,
 		&GSystem{name: "gw-portal", NM: 2, L: 3, GP: 1, Portal: true, Advs: []int{1}},
 		&GSystem{name: "gw-open", NM: 2, L: 1, GP: 1, Portal: false, Advs: []int{1, 3}},
-		&GSystem{name: "gw-reuse", NM: 2, NIP: 2, L: 2, GP: 2, Portal: true, Reuse: true, Advs: []int{1}},
+		// one address, two MACs: the address is given to the second MAC while the first still has its session
+		&GSystem{name: "gw-reuse", NM: 2, NIP: 1, L: 2, GP: 1, Portal: true, Reuse: true, Advs: []int{1}},
 	)
 	if tier == "thorough" {
 		l = append(l,
 			&WSystem{name: "map-3", NM: 3, Maps: true, T: 1, Sets: []int{}, Advs: []int{1}},
 			&WSystem{name: "map-t3", NM: 2, Maps: true, T: 3, Sets: []int{0, 1, 2, 3}, Advs: []int{1, 2}, Vlans: []int{5, 4094}},
 			&WSystem{name: "full-1", NM: 2, Maps: true, T: 1, Full: 1, Sets: []int{0}},
+			&GSystem{name: "gw-reuse-2", NM: 2, NIP: 2, L: 2, GP: 2, Portal: true, Reuse: true, Advs: []int{1}},
 			&GSystem{name: "gw-3", NM: 3, L: 2, GP: 1, Portal: true, Advs: []int{1}},
 			&GSystem{name: "gw-grace-long", NM: 2, L: 1, GP: 3, Portal: true, Advs: []int{1, 2}},
 		)
